@@ -109,7 +109,7 @@ EMPTY_OK = {b"/empty.txt", b"/emptydir"}
 # names tree (C05 / C06): every name of the alphabet as every kind of object
 # ---------------------------------------------------------------------------
 
-NAMES = [b"faq:general", b"re: hello", b"mailto:x", b"plain", b"sp ace", b"a&b", b"a?b", b"a|b", b"a#b", b"a%41", b"\xc3\xa9", b"\xae", b"a+b", b"a;b=c", b"a:b", b"a\\b",
+NAMES = [b"xURL:y", b"faq:general", b"re: hello", b"mailto:x", b"plain", b"sp ace", b"a&b", b"a?b", b"a|b", b"a#b", b"a%41", b"\xc3\xa9", b"\xae", b"a+b", b"a;b=c", b"a:b", b"a\\b",
          b'q"uote', b"lt<gt>", b"a'b", b" lead", b"-dash", b"a%2Fb", b"a=b&c=d", b"UPPER", b"a,b", b"(p)", b"[b]", b"{c}", b"a^b`c", b"a$b", b"a@b", b"a!b", b"a*b"]
 URL_ONLY_NAMES = [b"tab\tname", b"lf\nname", b"trail "]
 
@@ -141,6 +141,7 @@ def names_spec(names=None, full=True, depth2=True):
             zips[n + b".zip"] = make_zip([("m.txt", b"member\n"), ("d/e.txt", b"e\n")])
     spec[b"target.txt"] = b"link target\n"
     # top-level names that begin like the WAP prefix
+    spec[b"root.gophermap"] = b"root-level map file\n0Rel target\ttarget.txt\n1Rel dir\tf_dirs\n0Abs\t/target.txt\n"
     spec[b"wapiti.txt"] = b"wapiti\n"
     spec[b"wapping"] = {b"child.txt": b"c\n", b"wap": {b"x.txt": b"x\n"}}
     # (a root-level entry named exactly like the configured WAP prefix is a reserved name, like URL:)
